@@ -165,7 +165,7 @@ type diffTmpl struct {
 
 var c01Templates = []diffTmpl{
 	// a literal as the object of an assignment target is an error, not a store somewhere else
-	{"local t = {}; local ok = pcall(function() ('abc').k = x end); local ok2 = pcall(function() (10).k = y end); local ok3 = pcall(function() (nil).k = z end); emit(ok, ok2, ok3, t.k); (t).k = x; emit(t.k)", "num"},
+	{"local function f() local t = {}; ('abc').k = x; return t end; local function g() local a, t = 1, {}; (10).k = y; return t end; local ok, r = pcall(f); local ok2, r2 = pcall(g); emit(ok, ok or type(r), ok2, ok2 or type(r2)); local t = {}; local ok3 = pcall(function() (nil).k = z end); (t).k = x; emit(ok3, t.k)", "num"},
 	// surplus right-hand expressions are evaluated before any store
 	{"local function pr(v) emit('pr', v); return v end; local a, b = x, y; a, b = z, a + 1, pr(b); emit(a, b); local p = x; p = y, pr(p); emit(p); local t = {}; t.k, p = 1, z, pr(p), pr(t.k); emit(t.k, p)", "num"},
 	// multiple assignment: all right-hand sides and left-hand prefixes/keys before any store
